@@ -217,12 +217,14 @@ class RecordType:
         multi = ch.pick(2)
         sub = INDENTS[ch.pick(len(INDENTS))]
         ns = [noise(ch, sub) for _ in self.fields]
+        last = noise(ch, sub)          # between the last field and the closing brace
         if multi == 0:
             return ["type %s = {%s}" % (self.name, "; ".join(self.fields))]
         out = ["type %s = {" % self.name]
         for f, n in zip(self.fields, ns):
             out += n
             out.append(sub + f + ";")
+        out += last
         out.append("}")
         return out
 
